@@ -45,7 +45,7 @@ class Summarizer(Monitor):
         except BaseException as e:
             _reraise_if_harness(e)
         ret = read_solution(outcome["result"]) if outcome.get("result") is not None else None
-        lst.append({"op": op["op"], "k": op.get("k", op.get("n")), "evq": ({k: v for k, v in op.items() if k != "a"} if op["op"] == "evq" else None),
+        lst.append({"op": op["op"], "k": op.get("k", op.get("n")), "evq": ({k: v for k, v in op.items() if k != "a"} if op["op"] in ("evq", "sdq", "setp", "clone") else None),
                     "evq_answer": outcome.get("evq"),
                     "raised": (outcome.get("raised") or "").split(":")[0] or None,
                     "n_calls": len(calls), "calls_h": core.short_hash(calls), "sd_h": core.short_hash(sd), "n_items": len(sd),
@@ -179,9 +179,18 @@ class C11(SolverSuite):
                 ops.append({"a": "S0", "op": "solve"})
         from .suites import gen_self_reads
         plan = gen_self_reads(rng, G.base_plan(self.prop, run_seed, actors, ops, clock=G.gen_clock(rng)))
-        if rng.random() < 0.08 and not any(o["op"] == "setp" for o in ops):
+        u = rng.random()
+        if u < 0.08 and not any(o["op"] == "setp" for o in ops):
             # a listener of the user fails once; the caller carries on: the trial sequence is still the same sequence
             G.add_listener_fault(rng, plan)
+        elif u < 0.16 and not any(o["op"] == "setp" for o in ops) and not spec["params"].get("refineSolution"):
+            # the objective fails once at evaluation k: whatever the call pattern (a batch the caller catches the exception from,
+            # or a Solve that contains it), the completed trials that follow are the same sequence
+            plan["faults"] = [{"a": "S0", "at_eval": rng.choice([2, 3, rng.randint(2, 20)]), "exc": rng.choice(["ValueError", "KeyboardInterrupt", "SimFault"]),
+                               "when": rng.choice(["before", "after"]), "persistent": False}]
+            plan["continue_after_fault"] = True
+            for _ in range(rng.randint(1, 3)):
+                plan["ops"].append({"a": "S0", "op": rng.choice(["solve", "iterate", "iterate"]), "k": rng.randint(1, 6)})
         return plan
 
     def check_xproc(self, plan):
@@ -236,27 +245,38 @@ class C11(SolverSuite):
         # stop parameters changed between Solve calls: the trial sequence does not depend on them, each Solve runs to the first
         # moment ITS criterion holds: final length = max(sum k, T* of every stage)
         stage = copy.deepcopy(spec)
+        count, cur_t, t_max = 0, tstar, tstar
         for o in ops:
-            if o["op"] == "setp":
+            if o["op"] == "iterate":
+                count += int(o.get("k", 0))
+            elif o["op"] == "solve":
+                count = max(count, cur_t)          # a Solve runs to the first moment ITS criterion holds (or does nothing)
+            elif o["op"] == "setp":
                 stage["params"][o["field"]] = o["value"]
                 tw = solo_run(copy.deepcopy(stage), [{"op": "create"}, {"op": "solve"}])
                 rep.n_exec += 1
                 if tw["aborted"]:
                     rep.inconclusive["twin_" + str(tw["aborted"])] += 1
                     return rep
-                tstar = max(tstar, len([c for c in tw["calls"] if c[0] == "global"]))
+                cur_t = len([c for c in tw["calls"] if c[0] == "global"])
+                t_max = max(t_max, cur_t)
         lfault = bool(plan.get("lfaults"))
-        n = max(sumk, tstar) if not lfault else sumk + tstar     # (upper bound on the trials of a run with a cut-short Solve)
-        ref = solo_run(spec, [{"op": "create"}] + [{"op": "iterate", "k": 1}] * n)
+        n = count if not lfault else sumk + t_max     # (upper bound on the trials of a run with a cut-short Solve)
+        ofault = [f for f in plan.get("faults", []) if f["a"] == "S0"]
+        if ofault:
+            # after the failure the sequence is no longer the fault-free one, so neither is its stop index: the reference is
+            # stepped as far as any Solve of the variant could possibly go
+            n = sumk + int(spec["params"]["itersLimit"]) + 2
+        ref = solo_run(spec, [{"op": "create"}] + [{"op": "iterate", "k": 1}] * n, None, ofault, True)
         rep.n_exec += 1
         if ref["aborted"]:
             rep.inconclusive["ref_" + str(ref["aborted"])] += 1
             return rep
-        rg = [(y, v) for (ph, y, v, f) in ref["calls"] if ph == "global"]
+        rg = [(y, v) for (ph, y, v, f) in ref["calls"] if ph == "global" and f is None]
 
         def bad(clause, msg, locus="history"):
             rep.violations.append(core.Violation(self.prop, clause, msg, locus))
-        d = first_diff(tg, rg[:len(tg)])
+        d = first_diff(tg, rg[:len(tg)]) if not ofault else None     # (the faulted reference loses an interval: not the twin's run)
         if d:
             bad("twin_vs_stepwise", "Solve alone and one-at-a-time stepping differ at trial %d: %r vs %r" % (d[0] + 1, d[1], d[2]))
             return rep
@@ -280,13 +300,17 @@ class C11(SolverSuite):
             bad("batching_changes_trials", "batched run (batches %r then Solve) differs from one-at-a-time stepping at trial %d: %r vs %r"
                 % ([o.get("k") for o in ops if o["op"] == "iterate"], d[0] + 1, d[1], d[2]))
             return rep
+        if ofault and not lfault:
+            rep.probes["objective_fault_plans"] += 1
+            rep.nontrivial = core.short_hash((spec["objective"], spec.get("lower"), spec["params"], "ofault", ofault, [o.get("k") for o in ops]))
+            return rep
         if lfault:
             # a Solve cut short by the failing listener legitimately ends early: only the common-prefix clause applies
             rep.probes["listener_fault_plans"] += 1
             rep.nontrivial = core.short_hash((spec["objective"], spec.get("lower"), spec["params"], "lfault", plan["lfaults"]))
             return rep
         if len(vg) != n:
-            bad("length", "batched run made %d global trials, expected max(sum k=%d, T*=%d)" % (len(vg), sumk, tstar))
+            bad("length", "batched run made %d global trials, expected %d (sum k=%d, T*=%d)" % (len(vg), n, sumk, tstar))
             return rep
         # repeated Solve adds nothing
         sm = w1.monitors[0].ops["S0"]
@@ -475,6 +499,9 @@ class C12(SolverSuite):
         from .suites import gen_self_reads
         for aid in sorted(actors):
             gen_self_reads(rng, plan, aid=aid, prob=0.06, max_entries=2)
+        if n_act >= 2 and rng.random() < 0.08 and actors["S0"]["objective"]["N"] == actors["S1"]["objective"]["N"] \
+                and not actors["S1"].get("params_obj"):
+            actors["S1"]["start_point_from"] = "S0"      # S1 is started from the very Point object S0's Solution reports
         if rng.random() < 0.12:
             # one solver's objective fails once (its caller catches it, or its Solve contains it) while the others carry on
             aid = rng.choice(sorted(a for a in actors if actors[a]["objective"]["N"] <= 5))
@@ -522,7 +549,7 @@ class C12(SolverSuite):
                     o["k"] = s["k"]
                 if s["op"] == "refine":
                     o["n"] = s["k"]
-                if s["op"] == "evq":
+                if s["op"] in ("evq", "sdq", "setp", "clone"):
                     o = dict(s["evq"])
                 ops.append(o)
             solo = srv.call(solo_run, plan["actors"][aid], ops, None, [f for f in plan.get("faults", []) if f["a"] == aid],
@@ -999,9 +1026,15 @@ class C16(SolverSuite):
                 yield p
             return
         L = rng.randint(3, 40) if rng.random() < 0.9 else rng.randint(40, 150)
+        long_run = idx % 30 == 17
+        if long_run:
+            L = rng.randint(400, 900)      # hundreds of completed trials before the failure (anything that walks the whole record)
         spec = G.gen_actor(rng, max_iters=L, refine=False, shipped_prob=0.08, small_iters_prob=0.05,
-                           families=(TIE_FAMILIES if rng.random() < 0.25 else None))
+                           families=(TIE_FAMILIES if rng.random() < 0.25 else None), dims=((1, 2) if long_run else (1, 2, 3, 4, 5)))
         spec["params"]["itersLimit"] = min(spec["params"]["itersLimit"], L)
+        if long_run:
+            spec["params"]["itersLimit"] = L
+            spec["params"]["eps"] = G.EPS_MIN[spec["objective"]["N"]]
         twin = _twin_for(spec)
         if twin["aborted"] or (twin["ops"] and twin["ops"][0].get("raised")):
             yield G.base_plan(self.prop, run_seed, {"S0": spec}, [{"a": "S0", "op": "create"}, {"a": "S0", "op": "solve"}],
@@ -1014,6 +1047,9 @@ class C16(SolverSuite):
             return
         ks = list(range(2, T + 1))
         cap = 40 if tier == "quick" else 120     # (one spec is one task: a long serial tail otherwise)
+        if long_run:
+            cap = 6
+            ks = [k for k in ks if k > 300] or ks
         if len(ks) > cap:
             ks = sorted(rng.sample(ks, cap))
         clock = G.gen_clock(rng)
